@@ -1,4 +1,5 @@
 //@ unit u_sp
+//@ variants main core
 //@ depends u_graph
 // C04 / C08: the distance-only Dijkstra kernel, option dispatch and the single_source error channel (dijkstra.rs).
 #![feature(allocator_api)]
@@ -134,6 +135,60 @@ pub proof fn lemma_item_mono<T: Eq + PartialOrd + Send + Sync, A: Clone>(g: Grap
 }
 
 
+// ---- completeness of the distance-only kernel: nothing reachable is dropped ----
+pub open spec fn in_heap(h: vstd::multiset::Multiset<FringeNode>, w: usize) -> bool {
+    exists|it: FringeNode| #[trigger] h.count(it) > 0 && it.node_index == w
+}
+// the candidate length through the k-th traversal entry of v is not below f64::MAX (such a candidate is never pushed:
+// the first-discovery test is `candidate < seen[u]` with seen[u] == f64::MAX)
+pub open spec fn too_long<T: Eq + PartialOrd + Send + Sync, A: Clone>(g: Graph<T, A>, weighted: bool, hist: Seq<(usize, f64)>, v: usize, k: int) -> bool {
+    exists|d: f64| #[trigger] hist.contains((v, d)) && !flt(fadd(d, step_cost(g, weighted, v as int, k)), f64_max())
+}
+// trigger marker for the closure quantifiers: they are instantiated only at traversal entries named explicitly (a trigger on the
+// row entry itself would chain through in_heap -> item_ok -> extends -> another row entry and never stop)
+pub open spec fn entry_mark(v: usize, k: int) -> bool { true }
+pub open spec fn closed_upto<T: Eq + PartialOrd + Send + Sync, A: Clone>(g: Graph<T, A>, weighted: bool, hist: Seq<(usize, f64)>, done: Set<usize>, h: vstd::multiset::Multiset<FringeNode>, cur: int, upto: int) -> bool {
+    forall|v: usize, k: int| #[trigger] entry_mark(v, k) && done.contains(v) && v < g.n() && 0 <= k < g.successors_vec@[v as int]@.len() && (v != cur || k < upto)
+        ==> done.contains(g.successors_vec@[v as int]@[k].node_index) || in_heap(h, g.successors_vec@[v as int]@[k].node_index)
+            || too_long(g, weighted, hist, v, k)
+}
+// `done` (the settled nodes) contains the source and every traversal entry of a settled node leads to a settled node, unless the
+// candidate length through that entry is not below f64::MAX; every settled node was assigned a walk length (hist) and is
+// reported unless that length equals f64::MAX
+pub open spec fn settled_closed<T: Eq + PartialOrd + Send + Sync, A: Clone>(g: Graph<T, A>, weighted: bool, source: usize, hist: Seq<(usize, f64)>, done: Set<usize>, dist: Seq<f64>) -> bool {
+    &&& done.contains(source)
+    &&& forall|v: usize, k: int| #[trigger] entry_mark(v, k) && done.contains(v) && v < g.n() && 0 <= k < g.successors_vec@[v as int]@.len()
+            ==> done.contains(g.successors_vec@[v as int]@[k].node_index) || too_long(g, weighted, hist, v, k)
+    &&& forall|w: usize| #[trigger] done.contains(w) ==> w < g.n() && exists|d: f64| #[trigger] hist.contains((w, d)) && (feq(d, f64_max()) || dist[w as int] == d)
+}
+pub proof fn lemma_in_heap_remove(h: vstd::multiset::Multiset<FringeNode>, it: FringeNode, w: usize)
+    requires in_heap(h, w), w != it.node_index,
+    ensures in_heap(h.remove(it), w),
+{
+    let x = choose|x: FringeNode| #[trigger] h.count(x) > 0 && x.node_index == w;
+    assert(h.remove(it).count(x) > 0);
+}
+pub proof fn lemma_in_heap_insert(h: vstd::multiset::Multiset<FringeNode>, it: FringeNode, w: usize)
+    requires in_heap(h, w) || it.node_index == w,
+    ensures in_heap(h.insert(it), w),
+{
+    if it.node_index == w {
+        assert(h.insert(it).count(it) > 0);
+    } else {
+        let x = choose|x: FringeNode| #[trigger] h.count(x) > 0 && x.node_index == w;
+        assert(h.insert(it).count(x) > 0);
+    }
+}
+pub proof fn lemma_too_long_mono<T: Eq + PartialOrd + Send + Sync, A: Clone>(g: Graph<T, A>, weighted: bool, h0: Seq<(usize, f64)>, x: (usize, f64), v: usize, k: int)
+    requires too_long(g, weighted, h0, v, k),
+    ensures too_long(g, weighted, h0.push(x), v, k),
+{
+    let d = choose|d: f64| #[trigger] h0.contains((v, d)) && !flt(fadd(d, step_cost(g, weighted, v as int, k)), f64_max());
+    let j = choose|j: int| 0 <= j < h0.len() && h0[j] == (v, d);
+    assert(h0.push(x)[j] == (v, d));
+    assert(h0.push(x).contains((v, d)));
+}
+
 //@ extract fn src/algorithms/shortest_path/dijkstra.rs dijkstra_basic props=C03,C04,C20
 //@ head
 #[verifier::exec_allows_no_decreases_clause]
@@ -165,14 +220,31 @@ let d = core::ops::Neg::neg(fringe_item.distance);
         // entry: by induction it is the length of a walk from the source over the rows of successors_vec
         exists|hist: Seq<(usize, f64)>| #[trigger] chain_ok(*graph, weighted, source, hist) && forall|j: int| 0 <= j < r.unwrap()@.len() ==>
             hist.contains(((#[trigger] r.unwrap()@[j]).0, r.unwrap()@[j].1.distance)),
+//@ if main
+        // [C04.basic.nothing_reachable_is_dropped]
+        // the reported nodes are the settled ones (minus those whose length equals f64::MAX), the source is settled and every
+        // traversal entry of a settled node leads to a settled node unless the candidate length through it is not below f64::MAX
+        exists|hist: Seq<(usize, f64)>, done: Set<usize>, dist: Seq<f64>| #[trigger] settled_closed(*graph, weighted, source, hist, done, dist)
+            && chain_ok(*graph, weighted, source, hist) && dist.len() == graph.n()
+            && (forall|k: int| 0 <= k < dist.len() && !feq(#[trigger] dist[k], f64_max()) ==> exists|j: int| 0 <= j < r.unwrap()@.len() && (#[trigger] r.unwrap()@[j]).0 == k),
+//@ fi
         // [C04.basic.reported_in_range]
         forall|j: int| 0 <= j < r.unwrap()@.len() ==> (#[trigger] r.unwrap()@[j]).0 < graph.n(),
         // [C08.basic.no_paths_on_fast_path]
         forall|j: int| 0 <= j < r.unwrap()@.len() ==> (#[trigger] r.unwrap()@[j]).1.paths@.len() == 0,
 //@ before while let Some(fringe_item) = fringe.pop() {
     let ghost mut hist: Seq<(usize, f64)> = Seq::empty();
+//@ if main
+    let ghost mut done: Set<usize> = Set::empty();
+    let ghost mut hv: vstd::multiset::Multiset<FringeNode> = heap_view(&fringe);
+//@ fi
     proof {
-        assert(heap_view(&fringe) =~= vstd::multiset::Multiset::<FringeNode>::empty().insert(FringeNode { node_index: source, count: 0, distance: fneg(0.0f64) }));
+        let it0 = FringeNode { node_index: source, count: 0, distance: fneg(0.0f64) };
+        assert(heap_view(&fringe) =~= vstd::multiset::Multiset::<FringeNode>::empty().insert(it0));
+//@ if main
+        assert(heap_view(&fringe).count(it0) > 0);
+        assert(in_heap(heap_view(&fringe), source));
+//@ fi
     }
 //@ loop 1
         invariant
@@ -188,8 +260,35 @@ let d = core::ops::Neg::neg(fringe_item.distance);
             forall|u: int| reported(dist@, u) ==> hist.contains((u as usize, #[trigger] dist@[u])),
             // [C04.basic.settled_nodes_are_not_reassigned]
             forall|j: int| 0 <= j < hist.len() ==> (#[trigger] hist[j]).0 < dist@.len() && (feq(hist[j].1, f64_max()) || dist@[hist[j].0 as int] == hist[j].1),
+//@ if main
+            // [C04.basic.nothing_discovered_is_dropped]
+            hv == heap_view(&fringe),
+            forall|w: int| 0 <= w < graph.n() ==> #[trigger] seen@[w] == f64_max() || done.contains(w as usize) || in_heap(heap_view(&fringe), w as usize),
+            forall|w: int| 0 <= w < graph.n() && !feq(#[trigger] dist@[w], f64_max()) ==> done.contains(w as usize),
+            forall|w: usize| #[trigger] done.contains(w) ==> w < graph.n() && exists|d: f64| #[trigger] hist.contains((w, d)) && (feq(d, f64_max()) || dist@[w as int] == d),
+            closed_upto(*graph, weighted, hist, done, heap_view(&fringe), -1, 0),
+            done.contains(source) || in_heap(heap_view(&fringe), source),
+        ensures
+            heap_view(&fringe).len() == 0,
+//@ before let d = -fringe_item.distance;
+        let ghost heap0 = hv;
+        proof {
+            hv = heap_view(&fringe);
+            assert(heap0.count(fringe_item) > 0);
+            assert(hv == heap0.remove(fringe_item));
+            assert forall|w: usize| w != fringe_item.node_index && #[trigger] in_heap(heap0, w) implies in_heap(heap_view(&fringe), w) by {
+                lemma_in_heap_remove(heap0, fringe_item, w);
+            }
+        }
+//@ before continue;
+            proof {
+                assert(done.contains(v));
+            }
+//@ fi
 //@ before dist[v] = d;
         let ghost dist0 = dist@;
+        // a node is settled only while it is unsettled (the `continue` guard above)
+        assert(feq(dist@[v as int], f64_max()));
 //@ after dist[v] = d;
         proof {
             let ghost h0 = hist;
@@ -201,6 +300,25 @@ let d = core::ops::Neg::neg(fringe_item.distance);
                 lemma_item_mono(*graph, weighted, source, h0, (v, d), it);
             }
             lemma_reported_push(dist0, dist@, h0, v, d);
+//@ if main
+            let ghost done0 = done;
+            done = done.insert(v);
+            assert(hist[h0.len() as int] == (v, d));
+            assert forall|w: usize| #[trigger] done.contains(w) implies w < graph.n() && exists|dd: f64| #[trigger] hist.contains((w, dd)) && (feq(dd, f64_max()) || dist@[w as int] == dd) by {
+                if w != v {
+                    let dd = choose|dd: f64| #[trigger] h0.contains((w, dd)) && (feq(dd, f64_max()) || dist0[w as int] == dd);
+                    let j = choose|j: int| 0 <= j < h0.len() && h0[j] == (w, dd);
+                    assert(hist[j] == h0[j]);
+                    assert(hist.contains((w, dd)));
+                } else {
+                    assert(hist.contains((v, d)));
+                }
+            }
+            assert forall|x: usize, k: int| #[trigger] too_long(*graph, weighted, h0, x, k) implies too_long(*graph, weighted, hist, x, k) by {
+                lemma_too_long_mono(*graph, weighted, h0, (v, d), x, k);
+            }
+            assert(closed_upto(*graph, weighted, hist, done, heap_view(&fringe), v as int, 0));
+//@ fi
         }
         let ghost vpos: int = hist.len() - 1;
 //@ rewrite
@@ -220,6 +338,15 @@ for adj in row_it: graph.get_successor_nodes_by_index(&v)
                 chain_ok(*graph, weighted, source, hist),
                 forall|u: int| reported(dist@, u) ==> hist.contains((u as usize, #[trigger] dist@[u])),
                 forall|j: int| 0 <= j < hist.len() ==> (#[trigger] hist[j]).0 < dist@.len() && (feq(hist[j].1, f64_max()) || dist@[hist[j].0 as int] == hist[j].1),
+//@ if main
+                hv == heap_view(&fringe),
+                done.contains(v),
+                forall|w: int| 0 <= w < graph.n() ==> #[trigger] seen@[w] == f64_max() || done.contains(w as usize) || in_heap(heap_view(&fringe), w as usize),
+                forall|w: int| 0 <= w < graph.n() && !feq(#[trigger] dist@[w], f64_max()) ==> done.contains(w as usize),
+                forall|w: usize| #[trigger] done.contains(w) ==> w < graph.n() && exists|d: f64| #[trigger] hist.contains((w, d)) && (feq(d, f64_max()) || dist@[w as int] == d),
+                closed_upto(*graph, weighted, hist, done, heap_view(&fringe), v as int, row_it.index@ as int),
+                done.contains(source) || in_heap(heap_view(&fringe), source),
+//@ fi
 //@ before let vu_dist = dist[v] + cost;
             let ghost fringe0 = heap_view(&fringe);
 //@ after let vu_dist = dist[v] + cost;
@@ -230,6 +357,14 @@ for adj in row_it: graph.get_successor_nodes_by_index(&v)
                 assert(u < graph.n());
                 assert(fneg(fneg(vu_dist)) == vu_dist);
                 assert(extends(*graph, weighted, hist, vpos, u, fneg(fneg(vu_dist))));
+//@ if main
+                // a candidate that is not below f64::MAX is the only way an undiscovered successor stays undiscovered
+                assert(hist.contains((v, dist@[v as int])));
+                assert(vu_dist == fadd(dist@[v as int], step_cost(*graph, weighted, v as int, row_it.index@ as int)));
+                if !flt(vu_dist, f64_max()) {
+                    assert(too_long(*graph, weighted, hist, v, row_it.index@ as int));
+                }
+//@ fi
             }
 //@ before #1 push_fringe_node(&mut count, &mut fringe, u, vu_dist);
                 // machine arithmetic treated as mathematical: the push counter is an i32 that would need > 2^31 heap pushes to overflow
@@ -238,6 +373,13 @@ for adj in row_it: graph.get_successor_nodes_by_index(&v)
                 assume(count < i32::MAX);
 //@ after #1 push_fringe_node(&mut count, &mut fringe, u, vu_dist);
                 proof {
+//@ if main
+                   hv = heap_view(&fringe);
+                    assert forall|x: usize| #[trigger] in_heap(fringe0, x) implies in_heap(heap_view(&fringe), x) by {
+                        lemma_in_heap_insert(fringe0, FringeNode { node_index: u, count: count, distance: fneg(vu_dist) }, x);
+                    }
+                    lemma_in_heap_insert(fringe0, FringeNode { node_index: u, count: count, distance: fneg(vu_dist) }, u);
+//@ fi
                     // the pushed item carries -(dist[v] + cost): it is justified by the relaxed traversal entry
                     let itx = FringeNode { node_index: u, count: count, distance: fneg(vu_dist) };
                     assert(fneg(itx.distance) == vu_dist);
@@ -246,12 +388,32 @@ for adj in row_it: graph.get_successor_nodes_by_index(&v)
                 }
 //@ after #2 push_fringe_node(&mut count, &mut fringe, u, vu_dist);
                 proof {
+//@ if main
+                    hv = heap_view(&fringe);
+                    assert forall|x: usize| #[trigger] in_heap(fringe0, x) implies in_heap(heap_view(&fringe), x) by {
+                        lemma_in_heap_insert(fringe0, FringeNode { node_index: u, count: count, distance: fneg(vu_dist) }, x);
+                    }
+                    lemma_in_heap_insert(fringe0, FringeNode { node_index: u, count: count, distance: fneg(vu_dist) }, u);
+//@ fi
                     // the pushed item carries -(dist[v] + cost): it is justified by the relaxed traversal entry
                     let itx = FringeNode { node_index: u, count: count, distance: fneg(vu_dist) };
                     assert(fneg(itx.distance) == vu_dist);
                     assert(extends(*graph, weighted, hist, vpos, itx.node_index, fneg(itx.distance)));
                     assert(item_ok(*graph, weighted, source, hist, itx));
                 }
+//@ if main
+//@ before Ok(get_shortest_path_infos::<T, A>(dist, &mut paths, false))
+    let ghost distf = dist@;
+    proof {
+        assert forall|x: usize| !in_heap(heap_view(&fringe), x) by {
+            if in_heap(heap_view(&fringe), x) {
+                let it = choose|it: FringeNode| #[trigger] heap_view(&fringe).count(it) > 0 && it.node_index == x;
+                assert(heap_view(&fringe).count(it) <= heap_view(&fringe).len());
+            }
+        }
+        assert(settled_closed(*graph, weighted, source, hist, done, distf));
+    }
+//@ fi
 //@ end
 
 
@@ -290,6 +452,28 @@ for adj in row_it: graph.get_successor_nodes_by_index(&v)
 pub fn vpush_to_all(paths: &mut Vec<Vec<usize>>, u: usize)
     ensures final(paths)@.len() == old(paths)@.len(),
 { paths.iter_mut().for_each(|pv| pv.push(u)); }
+
+// the walk that reaches hist[i] extended by one traversal entry arrives at the node of hist[j] with a length d strictly below the
+// length hist[j].1 that node was settled with
+pub open spec fn shorter_walk_found<T: Eq + PartialOrd + Send + Sync, A: Clone>(g: Graph<T, A>, weighted: bool, source: usize, hist: Seq<(usize, f64)>, i: int, j: int, d: f64) -> bool {
+    &&& chain_ok(g, weighted, source, hist)
+    &&& 0 <= j < hist.len()
+    &&& extends(g, weighted, hist, i, hist[j].0, d)
+    &&& flt(d, hist[j].1)
+}
+
+pub proof fn lemma_shorter_walk<T: Eq + PartialOrd + Send + Sync, A: Clone>(g: Graph<T, A>, weighted: bool, source: usize, hist: Seq<(usize, f64)>, i: int, u: usize, du: f64, d: f64)
+    requires
+        chain_ok(g, weighted, source, hist),
+        hist.contains((u, du)),
+        extends(g, weighted, hist, i, u, d),
+        flt(d, du),
+    ensures
+        exists|hh: Seq<(usize, f64)>, ii: int, jj: int, dd: f64| #[trigger] shorter_walk_found(g, weighted, source, hh, ii, jj, dd),
+{
+    let j = choose|j: int| 0 <= j < hist.len() && hist[j] == (u, du);
+    assert(shorter_walk_found(g, weighted, source, hist, i, j, d));
+}
 
 //@ extract fn src/algorithms/shortest_path/dijkstra.rs dijkstra props=C03,C04,C08,C20
 //@ head
@@ -335,9 +519,26 @@ for adj in row_it: graph.get_successor_nodes_by_index(&v)
     ensures
         // [C04.dijkstra.error_is_contradictory_paths]
         r.is_err() ==> is_err_kind(r, ErrorKind::ContradictoryPaths),
+        // [C04.dijkstra.error_only_on_strictly_shorter_walk]
+        // ContradictoryPaths is raised only when a walk to an already settled node is strictly shorter than its settled distance
+        r.is_err() ==> exists|hist: Seq<(usize, f64)>, i: int, j: int, d: f64| #[trigger] shorter_walk_found(*graph, weighted, source, hist, i, j, d),
         // [C04.dijkstra.sound, C03.consumers.dijkstra_reads_successor_rows]
         r.is_ok() ==> exists|hist: Seq<(usize, f64)>| #[trigger] chain_ok(*graph, weighted, source, hist) && forall|j: int| 0 <= j < r.unwrap()@.len() ==>
             hist.contains(((#[trigger] r.unwrap()@[j]).0, r.unwrap()@[j].1.distance)),
+        // [C08.dijkstra.target_stops_the_search]
+        // with a target t the search stops as soon as t is settled: t can only be the LAST assignment ever made
+        r.is_ok() && target.is_some() ==> exists|hist: Seq<(usize, f64)>| #[trigger] chain_ok(*graph, weighted, source, hist)
+            && (forall|j: int| 0 <= j < r.unwrap()@.len() ==> hist.contains(((#[trigger] r.unwrap()@[j]).0, r.unwrap()@[j].1.distance)))
+            && (forall|i: int| 0 <= i < hist.len() - 1 ==> (#[trigger] hist[i]).0 != target.unwrap()),
+//@ if main
+        // [C04.dijkstra.nothing_reachable_is_dropped]
+        // without target and cutoff: the source is settled and every traversal entry of a settled node leads to a settled node
+        // unless the candidate length through it is not below f64::MAX; every settled node whose length is not f64::MAX is reported
+        r.is_ok() && cutoff.is_none() && target.is_none() ==>
+            exists|hist: Seq<(usize, f64)>, done: Set<usize>, dist: Seq<f64>| #[trigger] settled_closed(*graph, weighted, source, hist, done, dist)
+                && chain_ok(*graph, weighted, source, hist) && dist.len() == graph.n()
+                && (forall|k: int| 0 <= k < dist.len() && !feq(#[trigger] dist[k], f64_max()) ==> exists|j: int| 0 <= j < r.unwrap()@.len() && (#[trigger] r.unwrap()@[j]).0 == k),
+//@ fi
         // [C04.dijkstra.reported_in_range]
         r.is_ok() ==> forall|j: int| 0 <= j < r.unwrap()@.len() ==> (#[trigger] r.unwrap()@[j]).0 < graph.n(),
         // [C08.dijkstra.cutoff_respected]
@@ -347,10 +548,23 @@ for adj in row_it: graph.get_successor_nodes_by_index(&v)
         r.is_ok() && !with_paths ==> forall|j: int| 0 <= j < r.unwrap()@.len() ==> (#[trigger] r.unwrap()@[j]).1.paths@.len() == 0,
 //@ before while let Some(fringe_item) = fringe.pop() {
     let ghost mut hist: Seq<(usize, f64)> = Seq::empty();
+//@ if main
+    let ghost mut done: Set<usize> = Set::empty();
+    let ghost mut hv: vstd::multiset::Multiset<FringeNode> = heap_view(&fringe);
+    let ghost full: bool = cutoff.is_none() && target.is_none();
+//@ fi
     proof {
-        assert(heap_view(&fringe) =~= vstd::multiset::Multiset::<FringeNode>::empty().insert(FringeNode { node_index: source, count: 0, distance: fneg(0.0f64) }));
+        let it0 = FringeNode { node_index: source, count: 0, distance: fneg(0.0f64) };
+        assert(heap_view(&fringe) =~= vstd::multiset::Multiset::<FringeNode>::empty().insert(it0));
+//@ if main
+        assert(heap_view(&fringe).count(it0) > 0);
+        assert(in_heap(heap_view(&fringe), source));
+//@ fi
     }
 //@ loop 1
+        invariant_except_break
+            // [C08.dijkstra.search_continues_only_while_target_unsettled]
+            target.is_some() ==> forall|i: int| 0 <= i < hist.len() ==> (#[trigger] hist[i]).0 != target.unwrap(),
         invariant
             // [C04.dijkstra.invariants, C04.dijkstra.settled_nodes_are_expanded_once, C08.dijkstra.cutoff_prunes_every_push]
             graph.wf_nodes(),
@@ -368,8 +582,39 @@ for adj in row_it: graph.get_successor_nodes_by_index(&v)
             forall|i: int, j: int| 0 <= i < j < hist.len() && (#[trigger] hist[i]).0 == (#[trigger] hist[j]).0 ==> feq(hist[i].1, f64_max()),
             forall|it: FringeNode| #[trigger] heap_view(&fringe).count(it) > 0 ==> (it.node_index == source && fneg(it.distance) == 0.0f64) || within_cutoff(cutoff, fneg(it.distance)),
             forall|j: int| 0 <= j < hist.len() ==> ((#[trigger] hist[j]).0 == source && hist[j].1 == 0.0f64) || within_cutoff(cutoff, hist[j].1),
+//@ if main
+            // [C04.dijkstra.nothing_discovered_is_dropped]
+            hv == heap_view(&fringe),
+            full == (cutoff.is_none() && target.is_none()),
+            full ==> forall|w: int| 0 <= w < graph.n() ==> #[trigger] seen@[w] == f64_max() || done.contains(w as usize) || in_heap(heap_view(&fringe), w as usize),
+            forall|w: int| 0 <= w < graph.n() && !feq(#[trigger] dist@[w], f64_max()) ==> done.contains(w as usize),
+            forall|w: usize| #[trigger] done.contains(w) ==> w < graph.n() && exists|d: f64| #[trigger] hist.contains((w, d)) && (feq(d, f64_max()) || dist@[w as int] == d),
+            full ==> closed_upto(*graph, weighted, hist, done, heap_view(&fringe), -1, 0),
+            full ==> done.contains(source) || in_heap(heap_view(&fringe), source),
+//@ fi
+        ensures
+            target.is_some() ==> forall|i: int| 0 <= i < hist.len() - 1 ==> (#[trigger] hist[i]).0 != target.unwrap(),
+//@ if main
+            full ==> heap_view(&fringe).len() == 0,
+//@ before let d = -fringe_item.distance;
+        let ghost heap0 = hv;
+        proof {
+            hv = heap_view(&fringe);
+            assert(heap0.count(fringe_item) > 0);
+            assert(hv == heap0.remove(fringe_item));
+            assert forall|w: usize| w != fringe_item.node_index && #[trigger] in_heap(heap0, w) implies in_heap(heap_view(&fringe), w) by {
+                lemma_in_heap_remove(heap0, fringe_item, w);
+            }
+        }
+//@ before #1 continue;
+            proof {
+                assert(done.contains(v));
+            }
+//@ fi
 //@ before dist[v] = d;
         let ghost dist0 = dist@;
+        // a node is settled only while it is unsettled (the `continue` guard above)
+        assert(feq(dist@[v as int], f64_max()));
 //@ after dist[v] = d;
         proof {
             let ghost h0 = hist;
@@ -388,12 +633,32 @@ for adj in row_it: graph.get_successor_nodes_by_index(&v)
                     assert(hist[i] == h0[i] && hist[j] == h0[j]);
                 }
             }
+//@ if main
+            let ghost done0 = done;
+            done = done.insert(v);
+            assert(hist[h0.len() as int] == (v, d));
+            assert forall|w: usize| #[trigger] done.contains(w) implies w < graph.n() && exists|dd: f64| #[trigger] hist.contains((w, dd)) && (feq(dd, f64_max()) || dist@[w as int] == dd) by {
+                if w != v {
+                    let dd = choose|dd: f64| #[trigger] h0.contains((w, dd)) && (feq(dd, f64_max()) || dist0[w as int] == dd);
+                    let j = choose|j: int| 0 <= j < h0.len() && h0[j] == (w, dd);
+                    assert(hist[j] == h0[j]);
+                    assert(hist.contains((w, dd)));
+                } else {
+                    assert(hist.contains((v, d)));
+                }
+            }
+            assert forall|x: usize, k: int| #[trigger] too_long(*graph, weighted, h0, x, k) implies too_long(*graph, weighted, hist, x, k) by {
+                lemma_too_long_mono(*graph, weighted, h0, (v, d), x, k);
+            }
+            assert(full ==> closed_upto(*graph, weighted, hist, done, heap_view(&fringe), v as int, 0));
+//@ fi
         }
         let ghost vpos: int = hist.len() - 1;
 //@ loop 2
             invariant
                 v < graph.n(),
                 0 <= vpos < hist.len() && hist[vpos] == (v, dist@[v as int]),
+                target.is_some() ==> forall|i: int| 0 <= i < hist.len() ==> (#[trigger] hist[i]).0 != target.unwrap(),
                 graph.wf_nodes(),
                 graph.wf_rows(),
                 source < graph.n(),
@@ -409,8 +674,29 @@ for adj in row_it: graph.get_successor_nodes_by_index(&v)
                 forall|i: int, j: int| 0 <= i < j < hist.len() && (#[trigger] hist[i]).0 == (#[trigger] hist[j]).0 ==> feq(hist[i].1, f64_max()),
                 forall|it: FringeNode| #[trigger] heap_view(&fringe).count(it) > 0 ==> (it.node_index == source && fneg(it.distance) == 0.0f64) || within_cutoff(cutoff, fneg(it.distance)),
                 forall|j: int| 0 <= j < hist.len() ==> ((#[trigger] hist[j]).0 == source && hist[j].1 == 0.0f64) || within_cutoff(cutoff, hist[j].1),
+//@ if main
+                hv == heap_view(&fringe),
+                full == (cutoff.is_none() && target.is_none()),
+                done.contains(v),
+                full ==> forall|w: int| 0 <= w < graph.n() ==> #[trigger] seen@[w] == f64_max() || done.contains(w as usize) || in_heap(heap_view(&fringe), w as usize),
+                forall|w: int| 0 <= w < graph.n() && !feq(#[trigger] dist@[w], f64_max()) ==> done.contains(w as usize),
+                forall|w: usize| #[trigger] done.contains(w) ==> w < graph.n() && exists|d: f64| #[trigger] hist.contains((w, d)) && (feq(d, f64_max()) || dist@[w as int] == d),
+                full ==> closed_upto(*graph, weighted, hist, done, heap_view(&fringe), v as int, row_it.index@ as int),
+                full ==> done.contains(source) || in_heap(heap_view(&fringe), source),
+//@ fi
+//@ if main
+//@ before let vu_dist = dist[v] + cost;
+            let ghost fringe0 = heap_view(&fringe);
+//@ fi
 //@ after let vu_dist = dist[v] + cost;
             proof {
+//@ if main
+                assert(hist.contains((v, dist@[v as int])));
+                assert(vu_dist == fadd(dist@[v as int], step_cost(*graph, weighted, v as int, row_it.index@ as int)));
+                if !flt(vu_dist, f64_max()) {
+                    assert(too_long(*graph, weighted, hist, v, row_it.index@ as int));
+                }
+//@ fi
                 assert(graph.successors_vec@[v as int]@[row_it.index@] == *adj);
                 assert(extends(*graph, weighted, hist, vpos, u, vu_dist));
                 assert(u < graph.n());
@@ -424,6 +710,13 @@ for adj in row_it: graph.get_successor_nodes_by_index(&v)
                     assume(count < i32::MAX);
 //@ after #1 push_fringe_node(&mut count, &mut fringe, u, vu_dist);
                     proof {
+//@ if main
+                       hv = heap_view(&fringe);
+                        assert forall|x: usize| #[trigger] in_heap(fringe0, x) implies in_heap(heap_view(&fringe), x) by {
+                            lemma_in_heap_insert(fringe0, FringeNode { node_index: u, count: count, distance: fneg(vu_dist) }, x);
+                        }
+                        lemma_in_heap_insert(fringe0, FringeNode { node_index: u, count: count, distance: fneg(vu_dist) }, u);
+//@ fi
                         let itx = FringeNode { node_index: u, count: count, distance: fneg(vu_dist) };
                         assert(fneg(itx.distance) == vu_dist);
                         assert(extends(*graph, weighted, hist, vpos, itx.node_index, fneg(itx.distance)));
@@ -432,11 +725,44 @@ for adj in row_it: graph.get_successor_nodes_by_index(&v)
                     }
 //@ after #2 push_fringe_node(&mut count, &mut fringe, u, vu_dist);
                     proof {
+//@ if main
+                        hv = heap_view(&fringe);
+                        assert forall|x: usize| #[trigger] in_heap(fringe0, x) implies in_heap(heap_view(&fringe), x) by {
+                            lemma_in_heap_insert(fringe0, FringeNode { node_index: u, count: count, distance: fneg(vu_dist) }, x);
+                        }
+                        lemma_in_heap_insert(fringe0, FringeNode { node_index: u, count: count, distance: fneg(vu_dist) }, u);
+//@ fi
                         let itx = FringeNode { node_index: u, count: count, distance: fneg(vu_dist) };
                         assert(fneg(itx.distance) == vu_dist);
                         assert(extends(*graph, weighted, hist, vpos, itx.node_index, fneg(itx.distance)));
                         assert(item_ok(*graph, weighted, source, hist, itx));
                         assert(within_cutoff(cutoff, vu_dist));
+                    }
+//@ if main
+//@ before Ok(get_shortest_path_infos::<T, A>(
+    let ghost distf = dist@;
+    proof {
+        if full {
+            assert forall|x: usize| !in_heap(heap_view(&fringe), x) by {
+                if in_heap(heap_view(&fringe), x) {
+                    let it = choose|it: FringeNode| #[trigger] heap_view(&fringe).count(it) > 0 && it.node_index == x;
+                    assert(heap_view(&fringe).count(it) <= heap_view(&fringe).len());
+                }
+            }
+            assert(settled_closed(*graph, weighted, source, hist, done, distf));
+        }
+    }
+//@ fi
+//@ if main
+//@ before break;
+            proof {
+                assert(!full);
+            }
+//@ fi
+//@ before return Err(get_contractory_paths_error());
+                    proof {
+                        assert(reported(dist@, u as int));
+                        lemma_shorter_walk(*graph, weighted, source, hist, vpos, u, dist@[u as int], vu_dist);
                     }
 //@ end
 
